@@ -236,10 +236,10 @@ CLAIMED["C03"] = dict(
          "carries the 1-based scan number, the match count so far and the 0-based line number, and each component is evaluated in the "
          "state produced by the effects of the earlier components of the same line (c03_sameline). Tie: suite `interp` with "
          "variable-writing programs (assignments with tracking values, push/pop/stack, counter, count family, per-line stacks of "
-         "count_lines/line_number/count_scans/count) compared with the Lean interpreter and with the reference semantics after the run. Source tie (T): `CsvPath._consider_line` is translated from /repo's working tree to Lean on every run (heap mode) and proved to compute the run-loop model's `considerLine` for every contract-keeping matcher (Props/RunTie.consider_line_source_is_model).",
+         "count_lines/line_number/count_scans/count) compared with the Lean interpreter and with the reference semantics after the run. Source tie (T): `CsvPath._consider_line` is translated from /repo's working tree to Lean on every run (heap mode) and proved to compute the run-loop model's `considerLine` for every contract-keeping matcher (Props/RunTie.consider_line_source_is_model). Source tie (T): `Equality._do_when` (the `->` operator) is translated from /repo's working tree on every run and proved to compute `Model.WhenTop.whenDo` — the right-hand side runs exactly when the left-hand side answers True, in the state the left-hand side left, and is not called otherwise — for every pair of sides that keep the stated contract; the interpreter model's `evalWhen` is an instance (Props/WhenTie).",
     note=INTERP_NOTE + " tally/sum/subtotal/every/first bookkeeping is compared model-vs-code where the model has the function and otherwise "
          "only judged by the oracle when spec_eval defines it.",
-    technique="Lean 4 proof (run-loop counting invariants, component sequencing) + source translator with bridging theorem (_consider_line) + interpreter-model correspondence + reference-semantics oracle",
+    technique="Lean 4 proof (run-loop counting invariants, component sequencing) + source translator with bridging theorems (_consider_line, _do_when) + interpreter-model correspondence + reference-semantics oracle",
     design="6/C03",
 )
 CLAIMED["C04"] = dict(
@@ -249,9 +249,9 @@ CLAIMED["C04"] = dict(
          "verdict never returns to True (c04_run_monotone, c04_loop_never_writes); the manifest's all_valid is the conjunction of the "
          "members' verdicts (c04_aggregate). Tie: suite `interp` with conditional fail()/fail_and_stop()/failed()/valid() and "
          "error-provoking components under all policies, and suite `validity` for results_manager.is_valid and the manifest of real "
-         "named-paths runs.",
+         "named-paths runs. Source tie (T): `Equality._do_when` (the `->` operator) is translated from /repo's working tree on every run and proved to compute `Model.WhenTop.whenDo` — the right-hand side runs exactly when the left-hand side answers True, in the state the left-hand side left, and is not called otherwise — for every pair of sides that keep the stated contract; the interpreter model's `evalWhen` is an instance (Props/WhenTie).",
     note=INTERP_NOTE + " Known finding result-valid-needs-start (no-run member) is listed in known-findings.txt.",
-    technique="Lean 4 proof (effect-list invariant, monotonicity by induction over records) + correspondence + oracle",
+    technique="Lean 4 proof (effect-list invariant, monotonicity by induction over records) + source translator with bridging theorem (_do_when) + correspondence + oracle",
     design="6/C04",
 )
 CLAIMED["C13"] = dict(
